@@ -240,6 +240,18 @@ fn real_main() -> i32 {
                 verif::goml::CompileRes::Panic(p) => eprintln!("PANIC {}:{} {}", p.file, p.line, p.message),
             }
         }
+        "tast" => {
+            // debugging aid: verif tast <file.gom>
+            let path = PathBuf::from(args.get(2).unwrap_or_else(|| usage()));
+            let src = std::fs::read_to_string(&path).unwrap_or_default();
+            match compiler::pipeline::pipeline::typecheck_with_packages(&path, &src) {
+                Ok((tast, genv, diags)) => {
+                    println!("{}", tast.to_pretty(&genv, 120));
+                    for m in verif::goml::diag_messages(&diags) { eprintln!("{m}"); }
+                }
+                Err(e) => for m in verif::goml::diag_messages(e.diagnostics()) { eprintln!("{m}"); },
+            }
+        }
         "compile" => {
             // debugging aid: verif compile <file.gom | project dir> [--go]
             let p = PathBuf::from(args.get(2).unwrap_or_else(|| usage()));
